@@ -35,7 +35,7 @@ def run(tier, out):
     tot_cases = tot_events = 0
     for pi, p in enumerate(profiles(tier)):
         scripts, r = e2e.gen_scripts(wd, seed=core.seed() + 20 * pi, tag="env%d" % pi, **p)
-        cases, results = e2e.run_scripts(wd, scripts, {"store": False}, tag="run%d" % pi)
+        cases, results = e2e.run_scripts(wd, scripts, {"store": True}, tag="run%d" % pi)
         acc, rej, nev = e2e.validate_cases(out, "C02", "Trace_MapReplica", cases, results, project, CONSTS, wd,
                                            "map replica (profile %d)" % pi, tag="tv%d" % pi)
         core.log("[C02] profile %d: %d scripts, %d projected events, accepted=%d rejected=%d" % (pi, len(cases), nev, acc, rej))
